@@ -52,8 +52,8 @@ impl Property for C11 {
         let per = match (tier, suite.slow()) {
             (Tier::Quick, false) => 100,
             (Tier::Quick, true) => 15,
-            (Tier::Thorough, false) => 500,
-            (Tier::Thorough, true) => 80,
+            (Tier::Thorough, false) => 3000,
+            (Tier::Thorough, true) => 300,
         };
         // strata: source (4) x new/existing (2)
         (0..8).map(|s| (s, per)).collect()
